@@ -59,18 +59,23 @@ func known(run *common.Run, drv *common.Driver) {
 			ms = 10000
 		}
 		for a := 0; a < att && !fails; a++ {
-			P := kr.P
+			P, n := kr.P, kr.N
 			if a > 0 && kr.Sched == "lockstep" {
 				P = []int{4, 8, 2, 6}[a%4]
 			}
-			out, died, _ := runOne(self, Case{ID: 1, Kind: "prog", Src: kr.Src, Sched: kr.Sched, N: kr.N, MS: ms}, P, false)
+			if kr.Sched == "meet" {
+				// the meeting point is counted in interpreted operations after verif.Mark: try the recorded
+				// distance first, then its neighbours
+				n = []int{kr.N, kr.N + 1, kr.N - 1, kr.N + 2, kr.N - 2, kr.N + 3, kr.N - 3, kr.N + 4}[a%8]
+			}
+			out, died, _ := runOne(self, Case{ID: 1, Kind: "prog", Src: kr.Src, Sched: kr.Sched, N: n, MS: ms}, P, false)
 			got := implOutcome(&job{out: out, died: died})
 			if got != want {
 				fails = true
 				detail = fmt.Sprintf("GOMAXPROCS=%d %s attempt %d: interpreter %q, compiled %q", P, kr.Sched, a+1, trunc(got, 300), trunc(want, 300))
 			}
 		}
-		if kr.Model != "" {
+		if kr.Model != "" && f.Status == "finding" {
 			ans, err := drv.Ask("C08 xtalk " + kr.Model)
 			if err != nil || common.Fields(ans)["x"] != "1" {
 				run.Errorf("finding %s: the model does not exhibit the cross-talk on the replay's model program: %s %v", f.ID, ans, err)
